@@ -1,5 +1,5 @@
 """C14 — graceful shutdown (DESIGN.md §5 C14)."""
-import json
+import json, os
 import srvlib
 from vlib import Infra
 
@@ -45,9 +45,17 @@ def run(ctx):
             else:
                 ctx.cov["stress_" + mode] = x.get("observed")
         if st["rc"] != 0:
+            last = ""
+            try:
+                last = open(os.path.join(ctx.scratch, "stress-progress.txt")).read().splitlines()[-1]
+            except Exception:
+                pass
+            # a bind failure in the FIRST cycle on a fresh address says nothing about shutdown (port taken by someone else)
+            if ("server failed: listen tcp" in st["tail"] or "address already in use" in st["tail"]) and " cycle 0 " in last:
+                raise Infra("stress driver could not bind a fresh address (%s): %s" % (last, st["tail"][-300:]))
             if "server failed: listen tcp" in st["tail"] or "address already in use" in st["tail"]:
-                ctx.violation("stress (%s): a stopped server's start goroutine bound its listener after AwaitStop returned and the process panicked: %s"
-                              % (mode, [l for l in st["tail"].splitlines() if "panic" in l][:1]),
+                ctx.violation("stress (%s): a stopped server's start goroutine bound its listener after AwaitStop returned and the process panicked (%s): %s"
+                              % (mode, last, [l for l in st["tail"].splitlines() if "panic" in l][:1]),
                               dict(kind="srv-stress", cases=dict(iterations=it, mode=mode, cycles=2)))
             else:
                 raise Infra("stress driver died: " + st["tail"][-800:])
